@@ -68,6 +68,16 @@ type Spec struct {
 	InitStd   []string            `json:"init_std"`
 	Assume    []string            `json:"assumptions"`
 	Encoded   []string            `json:"encoded"` // documentation: functions under test
+	Stubs     map[string]string   `json:"stubs"`   // extra contract stubs: function -> noop|real
+}
+
+// defaultStubs are applied to every check (each one that fires is listed in the evidence).
+var defaultStubs = map[string]string{
+	modulePath + "/timing.RegisterEvent":            "noop", // codec registration through reflection
+	modulePath + "/messaging.RegisterMsg":           "noop", // codec registration through reflection
+	modulePath + "/modeling.validateForCheckpoint":  "noop", // reflection walk over Spec/State types (C43, n/a)
+	modulePath + "/modeling.ValidateSpec":           "noop",
+	modulePath + "/modeling.ValidateState":          "noop",
 }
 
 func loadSpec(prop string) (*Spec, string, error) {
@@ -550,6 +560,13 @@ func cmdCheck(args []string) int {
 	}
 	w := interp.Prepare(ld.prog, ld.sizes, modulePath)
 	w.Trace = *trace
+	w.Stubs = map[string]string{}
+	for k, v := range defaultStubs {
+		w.Stubs[k] = v
+	}
+	for k, v := range spec.Stubs {
+		w.Stubs[strings.ReplaceAll(k, "akita/", modulePath+"/")] = v
+	}
 	for _, p := range append([]string{"errors", "io", "io/fs", "strconv", "unicode/utf8", "math", "sort", "container/list", "encoding/binary", "net", "unicode", "internal/bytealg", "syscall", "time", "os"}, spec.InitStd...) {
 		w.InitStd[p] = true
 	}
@@ -674,7 +691,7 @@ func cmdCheck(args []string) int {
 
 		// vacuity: every declared cover label must be reached on a feasible path
 		for _, c := range hs.Covers {
-			if res.Covers[c] == 0 && len(res.Inconcl) == 0 {
+			if res.Covers[c] == 0 && len(res.Inconcl) == 0 && len(res.Violations) == 0 {
 				engineErrs = append(engineErrs, fmt.Sprintf("%s: vacuous: cover label %q reached by no feasible path", hs.Func, c))
 			}
 		}
